@@ -142,12 +142,12 @@ Definition j_sev (e : sev) : json :=
   end.
 
 Definition j_stub_ctx (c : sctx) : list (str * json) :=
-  [jk "events" (JArr (map j_sev (events _ _ _ _ c)));
-   jk "queue" (JArr (map (fun t => JNum (snd t)) (queue _ _ _ _ c)));
-   jk "lineno" (JNum (lineno _ _ _ _ c));
-   jk "nerrs" (JNum (length (errs _ _ _ _ c)));
-   jk "errors" (JArr (map (fun e => JArr [JNum (snd (fst e)); JArr (map (fun k => JStr (kind_name_str k)) (snd e))]) (errs _ _ _ _ c)));
-   jk "calls" (JNum (calls _ _ _ _ c))].
+  [jk "events" (JArr (map j_sev (events c)));
+   jk "queue" (JArr (map (fun t => JNum (snd t)) (queue c)));
+   jk "lineno" (JNum (lineno c));
+   jk "nerrs" (JNum (length (errs c)));
+   jk "errors" (JArr (map (fun e => JArr [JNum (snd (fst e)); JArr (map (fun k => JStr (kind_name_str k)) (snd e))]) (errs c)));
+   jk "calls" (JNum (calls c))].
 
 Definition j_stub_res {A} (f : A -> json) (r : sres A) : json :=
   match r with
@@ -210,7 +210,7 @@ Definition dispatch (fname : str) (args : list json) : json :=
       match new_matcher dialects dn with
       | Some m =>
         match parse_tokens_fmt false (scan src) m with
-        | Ok _ c => JObj [jk "ok" (JStr (format_tokens (flat_map (fun e => match e with EvB t _ => [t] | _ => [] end) (events _ _ _ _ c))))]
+        | Ok _ c => JObj [jk "ok" (JStr (format_tokens (flat_map (fun e => match e with EvB t _ => [t] | _ => [] end) (events c))))]
         | RaiseC es _ => JObj [jk "errors" (JArr (map j_error es))]
         | Raise1 e _ => JObj [jk "error" (j_error e)]
         | Crash _ => JObj [jk "crash" JNull]
@@ -279,10 +279,8 @@ Definition dispatch (fname : str) (args : list json) : json :=
     | [JBool stop; JNum s; k; JArr ks] =>
       match d_kind k, map_opt d_kind ks with
       | Some k, Some w =>
-        let c0 := mkctx tok unit unit serr [] (combine w (seq 2 (length w))) 1 [] tt tt 0 [] in
-        j_stub_res JNum
-          (match_token tok unit unit serr s_is_eof s_mk_eof s_matchf s_bstart s_bstart s_bbuild
-                       s_same s_unexpected table lookaheads error_cap stop s (k, 1) c0)
+        let c0 : sctx := mkctx [] (combine w (seq 2 (length w))) 1 [] tt tt 0 [] in
+        j_stub_res JNum (match_token (stub_params Table.table) stop s (k, 1) c0)
       | _, _ => j_err "stub_match_token: kinds"
       end
     | _ => j_err "stub_match_token: arguments"
